@@ -290,8 +290,11 @@ impl HBox {
                             den: common::Scaled::ONE,
                         };
                     } else {
+                        // As for every other shrinking box the ratio is negative
+                        // (TeX shows this box as `glue set - 1.0`): the glue sign
+                        // is carried by the sign of the ratio.
                         hbox.glue_ratio = GlueRatio {
-                            num: common::Scaled::ONE,
+                            num: -common::Scaled::ONE,
                             den: common::Scaled::ONE,
                         };
                     }
